@@ -91,15 +91,22 @@ def watchdog(seconds):
     clock limit of 8x that for time spent waiting on sub-processes (dsharp, maxsatz)."""
     old_alrm = signal.signal(signal.SIGALRM, _alarm_handler)
     old_prof = signal.signal(signal.SIGPROF, _alarm_handler)
-    signal.setitimer(signal.ITIMER_PROF, seconds)
-    signal.setitimer(signal.ITIMER_REAL, seconds * 8)
+    # (both timers re-fire: an exception raised inside a __del__ / callback / bare except of the code under test is
+    # swallowed there, and a one-shot timer would then never stop the case)
+    signal.setitimer(signal.ITIMER_PROF, seconds, 2.0)
+    signal.setitimer(signal.ITIMER_REAL, seconds * 8, 5.0)
     try:
         yield
     finally:
-        signal.setitimer(signal.ITIMER_PROF, 0)
-        signal.setitimer(signal.ITIMER_REAL, 0)
-        signal.signal(signal.SIGALRM, old_alrm)
-        signal.signal(signal.SIGPROF, old_prof)
+        while True:
+            try:
+                signal.setitimer(signal.ITIMER_PROF, 0)
+                signal.setitimer(signal.ITIMER_REAL, 0)
+                signal.signal(signal.SIGALRM, old_alrm)
+                signal.signal(signal.SIGPROF, old_prof)
+                break
+            except CaseTimeout:  # a timer fired while the timers were being switched off
+                continue
 
 
 @contextlib.contextmanager
